@@ -160,11 +160,11 @@ class C18(Prop):
         opt = rep0["minPartition"]
         mp = replies[1]["axes"]
         if a[0] == "ok" and isinstance(a[1], list):
-            if len(mp) != len(a[1]):
-                out.append(Problem("disagreement", case, f"model of k_alt_partition_approx gives {mp}, implementation {a[1]}",
-                                   "model/approx"))
-            elif mp != a[1]:
-                self.count("approx-drift")
+            # the property only asks for a VALID partition from the approximation (checked above by the verified
+            # checker); which one the greedy procedure returns — even how many axes — depends on which of several
+            # longest axes the dynamic programme picks: drift, not a broken correspondence
+            if mp != a[1]:
+                self.count("approx-drift" + ("-size" if len(mp) != len(a[1]) else ""))
         nk = len(obs["brute"])
         models = replies[2 + nk:]
         for ((k, r), rep), mrep in zip(zip(obs["brute"].items(), replies[2:2 + nk]), models):
